@@ -1,6 +1,6 @@
 (* Props/C06.v -- property C06: server transactions deliver the final response reliably. Statements only. *)
 From Coq Require Import List NArith.
-From EZK Require Import Gen.Tables Model.Tsx Proofs.C05 Proofs.C06.
+From EZK Require Import Gen.Tables Model.Tsx Proofs.C05 Proofs.C06 Model.C12o Proofs.C12o.
 Import ListNotations.
 Open Scope N_scope.
 
@@ -58,3 +58,15 @@ Example C06_example :
   server_invite_failure true false 100 [(700, ReqRetrans); (9000, AckIn); (9500, ReqRetrans)] =
   [Send 100; Send 600; Send 700; Send 1600; Send 3600; Send 7600; Done 9000].
 Proof. vm_compute. reflexivity. Qed.
+
+(* "for all numbers ... of request retransmissions": the queue in front of a transaction is unbounded, so however many
+   retransmissions arrive before the application answers, none is refused (a refused one would be shown to the layers as a new
+   request); a bounded queue refuses as soon as more arrive than it holds *)
+Theorem C06_queue_guard : tsx_queue_unbounded = true.
+Proof. reflexivity. Qed.
+
+Theorem C06_no_retransmission_refused : forall n, tsx_queue_unbounded = true -> refused_of tsx_queue_capacity n = 0%nat.
+Proof. exact unbounded_refuses_nothing. Qed.
+
+Theorem C06_bounded_queue_refuted : forall c n, (c < n)%nat -> (0 < refused_of (Some c) n)%nat.
+Proof. exact bounded_refuses. Qed.
